@@ -24,6 +24,7 @@ func main() {
 	debug := flag.String("debug", "", "debug output selector")
 	noEvidence := flag.Bool("no-evidence", false, "do not write evidence (used for variant runs on scratch copies)")
 	replay := flag.String("replay", "", "re-evaluate the obligation recorded in a violation replay file")
+	dumpFuncs := flag.Bool("dump-funcs", false, "print the functions declared in the module (to regenerate an/known_funcs.go)")
 	flag.Parse()
 
 	if *verif == "" {
@@ -41,6 +42,9 @@ func main() {
 		sort.Strings(ids)
 		fmt.Println(strings.Join(ids, " "))
 		return
+	}
+	if *dumpFuncs {
+		os.Exit(props.DumpFuncs(*repo, *verif))
 	}
 	if *replay != "" {
 		os.Exit(props.Replay(*replay, *repo, *verif))
